@@ -114,6 +114,7 @@ def plan(tier, seed):
     cases += [{"fam": "network", "r": i} for i in range(nnet)]
     cases += [{"fam": "single2", "r": i} for i in range(nsingle2)]     # two inputs / two outputs / sparse out, all drawn
     cases += [{"fam": "assemble", "r": i, "wrong": i % 2} for i in range(nlib)]
+    cases += [{"fam": "assemble", "r": 900000 + i, "wrong": 0, "big": 1} for i in range(2 if tier == "quick" else 32)]
     cases += [{"fam": "overhang", "r": i} for i in range(nlib // 2)]
     cases += [{"fam": "sparse-input", "r": i, "fmt": ["csr", "csc", "coo"][i % 3], "cplx": (i // 3) % 2,
                "lib": int(i >= 6)} for i in range(nsp)]
@@ -1093,8 +1094,12 @@ def _lib_common(ctx, pym, build, x, kw, rng, linear, wrongf, name):
         if linear:
             D = float(np.sum(W * cols[i]))
             trunc = 0.0
-            sc = float(np.sum(np.abs(W) * (kmag + (1 + h) * np.abs(cols[i]))))
-            rnd = 32 * (n + 8) * M.EPS * sc / h + 4 * (n + 8) * M.EPS * sc
+            # rounding of the difference quotient: only the output entries that change with x_i contribute (an entry that does not
+            # depend on x_i is bit-identical in both evaluations and cancels exactly in sum(W*(y(x+h) - y(x)))); each assembled entry is
+            # a sum of at most 8 element contributions
+            dep = cols[i] != 0
+            sc = float(np.sum((np.abs(W) * (kmag + (1 + h) * np.abs(cols[i])))[dep]))
+            rnd = 32 * 16 * M.EPS * sc / h + 4 * 16 * M.EPS * sc
         else:
             ep, em = x.copy(), x.copy()
             ep[i] += h
@@ -1166,8 +1171,11 @@ def run_assemble(case, ctx):
     pym = H["pym"]
     rng = ctx.rng("c19", "assemble", case["r"])
     nx, ny = int(rng.integers(1, 4)), int(rng.integers(1, 4))
+    if case.get("big"):
+        # a sparse output with tens of thousands of sizeable entries of which only 64 depend on each input entry
+        nx, ny = int(rng.integers(18, 28)), int(rng.integers(18, 28))
     dom = pym.DomainDefinition(nx, ny)
-    x = rng.uniform(0.2, 2.0, nx * ny)
+    x = rng.uniform(0.2, 2.0, nx * ny) * (1e3 if case.get("big") else 1.0)
     if rng.random() < 0.4 and len(x) > 1:
         x[int(rng.integers(0, len(x)))] = 0.0
     wrongf = float(rng.choice([1.1, 0.5, -1.0])) if case["wrong"] else 1.0
@@ -1186,6 +1194,8 @@ def run_assemble(case, ctx):
         m.factor = wrongf
         return m
     kw = {"dx": float(rng.choice(DXS)), "tol": float(rng.choice([1e-5, 1e-3])), "verbose": bool(rng.random() < 0.5)}
+    if case.get("big"):
+        kw.update(dx=1e-6, verbose=False)
     if rng.random() < 0.4:
         kw["relative_dx"] = True
     if rng.random() < 0.5:
